@@ -1237,9 +1237,9 @@ func init() {
 				add(c15Task{Kind: "mutate-http", Seed: n, From: i, To: i + 150})
 			}
 		}
-		maxLen := 5
+		maxLen := 6
 		if !r.Quick() {
-			maxLen = 7
+			maxLen = 8
 		}
 		small := 0
 		for l := 1; l <= maxLen; l++ {
@@ -1248,7 +1248,7 @@ func init() {
 				total *= len(c15Alphabet)
 			}
 			small += total
-			step := 200000
+			step := 500000
 			for i := 0; i < total; i += step {
 				to := i + step
 				if to > total {
